@@ -1584,3 +1584,49 @@ def c01_r3(ctx):
     else:
         yield ok("C01-R3", "store_file_data:unrecorded-return", at(f), "%d return(s) without merge(), all behind the empty-payload test" % len(rets))
 
+
+
+# ================================================================ C04-E: ways for an open transaction's task to die
+ERR_TABLE = {
+    ("RecvTransaction", "process_pdu"): {"MissingMetadata", "NoChecksum", "NoFile", "UnexpectedPDU"},
+    ("SendTransaction", "send_pdu"): {"NoFile"},
+    ("SendTransaction", "handle_timeout"): {"NoFile"},
+    ("SendTransaction", "send_file_segment"): {"NoFile"},
+    ("SendTransaction", "send_missing_data"): {"NoFile"},
+    ("SendTransaction", "cancel"): {"NoFile"},
+    ("SendTransaction", "process_pdu"): {"UnexpectedPDU"},
+}
+
+
+@rule("C04", "C04-E", 4, "an error returned by a handler of an open transaction ends its task (the daemon then opens a fresh transaction for the same id on the peer's next PDU, which receives and finalises the file again): the handlers construct errors of their own only where the pinned tree does - per entry point, the set of TransactionError kinds built in the code it reaches does not grow")
+def c04_e(ctx):
+    n = 0
+    for adt in (RECV, SEND):
+        nm = adt.split("::")[-1]
+        fns = impl_fns(ctx, adt)
+        allf = impl_and_closures(ctx, adt)
+        sites = {}
+        for f, b, j, s in agg_sites(allf, "TransactionError"):
+            owner = (f.root or f.norm) if f.kind == "Closure" else f.norm
+            sites.setdefault(owner, []).append((s["rv"].get("variant"), f, s["span"]["line"]))
+        for f in fns:
+            v = f.vis or ""
+            if not (v.startswith("Public") or "0:0 ~" in v):
+                continue
+            got = {}
+            for g in ctx.prog.reach([f]):
+                for var, sf, line in sites.get(g, ()):
+                    got.setdefault(var, (sf, line))
+            allowed = ERR_TABLE.get((nm, f.name), set())
+            if not got and not allowed:
+                continue
+            n += 1
+            extra = sorted(set(got) - allowed)
+            key = "%s::%s:own-errors" % (nm, f.name)
+            if extra:
+                sf, line = got[extra[0]]
+                yield bad("C04-E", key, at(sf, line), "%s::%s can now fail with TransactionError::%s (built in %s): a new way for the open transaction's task to end while the peer still addresses it" % (nm, f.name, extra[0], sf.name))
+            else:
+                yield ok("C04-E", key, at(f), {"own_error_kinds": sorted(got)})
+    if n == 0:
+        raise Anchor("C04-E", "TransactionError constructions reachable from the transactions' entry points")
